@@ -6,6 +6,7 @@ import core, lib
 from core import call_matches, call_names, op_place, op_local, backward_slice
 from props import shared
 
+WITNESSES = ['IteratorBorrowsHandle']      # compile-fail witnesses against the public surface (thorough tier; engine.WITNESSES)
 LEVEL = 'proof'
 FLOOR = 51      # 70% of the 74 obligation instances derived on the tree the rules were last reviewed against
 EXPLANATION = ('(1) the change list of a btree transaction is ordered with the STABLE sort family and Operation\'s Ord compares keys only, so repeated keys '
